@@ -1,8 +1,9 @@
 """C06: see DESIGN.md section 3 C06."""
-from _ccmon import standard_plan, floor_msgs, COMMON_ASSUMPTIONS
+from _ccmon import standard_plan, floor_msgs, COMMON_ASSUMPTIONS, EVOLVE_NOTE
 
 LEVEL = "exploration"
 RULE = "histories are generated per shard from (seed, index) by harness/src/gen.rs (weights of mode C06: 80% of objects have finalizers, 80% of those resurrect (self via Weak::upgrade, neighbours via clone / move, into globals or live objects' slots)) plus the directed corpus harness/src/directed.rs; each is executed against the real crate with all oracles on, followed by an epilogue that releases everything and collects until quiet. distinct = distinct expanded operation lists (FNV hash); non-trivial iff a finalizer resurrected at least one object and the collector reclaimed at least one object in the same history"
+RULE += EVOLVE_NOTE
 ASSUMPTIONS = COMMON_ASSUMPTIONS
 FLOORS = {'resurrections': 500, 'c02_quiet_checks': 500}
 
